@@ -1,6 +1,7 @@
 (* C14: concrete workspaces, evaluated inside Coq. One witness per open finding class, one regression pin per
-   class repaired in /repo (C14-glob, C14-glob-order, C14-glob-const: the former witnesses, which must now come
-   out right), and non-vacuity examples for both halves of the domain of the completeness theorem. *)
+   class repaired in /repo (C14-glob, C14-glob-order, C14-glob-const, C14-renamed-import: the former witnesses,
+   which must now come out right), and non-vacuity examples for both halves of the domain of the completeness
+   theorem. *)
 From Coq Require Import List Bool String.
 From TS Require Import Model.Str Model.Outcome Model.Unicode Model.Syntax Model.Attrs Model.Types Model.Parse
                        Model.Reconcile Model.Collect Model.Lang.Common Model.Rename Model.MultiFile.
@@ -78,9 +79,38 @@ Definition MY : str := lit "my_crate".
 (* `use a::A1;` in crate my-crate: in the domain, not in a finding class, imported from ./a *)
 Example plain_eval : w_run idl idl ws_plain MY = Some ([(lit "a", lit "A1")], [(lit "A1", lit "a", true, None, true)]).
 Proof. vm_compute. reflexivity. Qed.
-(* `use a::A2;` where A2 is #[serde(rename = "A2Renamed")]: nothing is imported *)
-Lemma renamed_eval : w_run idl idl ws_renamed MY = Some ([], [(lit "A2", lit "a", false, Some "C14-renamed-import", false)]).
+(* `use a::A2;` where A2 is #[serde(rename = "A2Renamed")] (formerly C14-renamed-import: nothing was imported):
+   the import is put back under the generated name and resolves in crate a; the reference is in the domain,
+   in no finding class, imported *)
+Lemma renamed_eval : w_run idl idl ws_renamed MY = Some ([(lit "a", lit "A2Renamed")], [(lit "A2", lit "a", true, None, true)]).
 Proof. vm_compute. reflexivity. Qed.
+(* the same reference written as a qualified path, no `use`: `f: a::A2` *)
+Definition w_b_path (c t : str) : ws_entry := w_entry (lit "my-crate") (w_file
+  [IStruct [w_ts] (lit "B1") [] (FNamed [w_fld (lit "f") (TPath [c] t [])])] [[lit "typeshare"]; [c; t]]).
+Definition ws_renamed_path : list ws_entry := [w_a; w_b_path (lit "a") (lit "A2")].
+Lemma renamed_path_eval : w_run idl idl ws_renamed_path MY = Some ([(lit "a", lit "A2Renamed")], [(lit "A2", lit "a", true, None, true)]).
+Proof. vm_compute. reflexivity. Qed.
+(* what reaches the generated file of my-crate: the field says A2Renamed, and the import statement (TypeScript) names it *)
+Definition w_field_types (ws : list ws_entry) (c : str) : list rtype :=
+  match parse_workspace uc_exec [] [] (fun l => l) ws with
+  | Ok arrivals => match crates_get (multi_crates idl arrivals) c with
+                   | Some pd => flat_map (fun s => map fty (sfields s)) (p_structs pd)
+                   | None => []
+                   end
+  | _ => []
+  end.
+Definition w_import_text (ws : list ws_entry) (c : str) : str :=
+  match parse_workspace uc_exec [] [] (fun l => l) ws with
+  | Ok arrivals => let cs := multi_crates idl arrivals in
+                   match crates_get cs c with Some pd => ts_write_imports (crate_imports idl cs c pd) | None => [] end
+  | _ => []
+  end.
+Lemma renamed_text_eval :
+  w_field_types ws_renamed MY = [RSimple (lit "A2Renamed")] /\
+  w_import_text ws_renamed MY = (lit "import { A2Renamed } from ""./a"";" ++ [10%N; 10%N])%list /\
+  w_field_types ws_renamed_path MY = [RSimple (lit "A2Renamed")] /\
+  w_import_text ws_renamed_path MY = (lit "import { A2Renamed } from ""./a"";" ++ [10%N; 10%N])%list.
+Proof. repeat split; vm_compute; reflexivity. Qed.
 (* `use a::*;` (formerly C14-glob: nothing was imported): every type of crate a is imported, the reference to A1
    is in the domain (covered by the glob), in no finding class, imported *)
 Definition A_ALL : list (str * str) := [(lit "a", lit "A1"); (lit "a", lit "A2Renamed"); (lit "a", lit "A3")].
@@ -114,12 +144,31 @@ Theorem imports_complete_nonvacuous : exists arrivals pd v,
   rv_dom v = true /\ rv_known v = None /\ rv_imported v = true.
 Proof. from_eval plain_eval. Qed.
 
-Theorem renamed_import_refuted : exists arrivals pd v,
+Theorem renamed_import_fixed :
+  renamed_in (c14_infos uc_exec [] ws_renamed) (lit "a") (lit "A2") = lit "A2Renamed" /\
+  exists arrivals pd v,
   parse_workspace uc_exec [] [] (fun l => l) ws_renamed = Ok arrivals /\
   In (MY, pd) (multi_crates idl arrivals) /\
   In v (judge_crate (c14_infos uc_exec [] ws_renamed) [] MY (scoped_pairs (crate_imports idl (multi_crates idl arrivals) MY pd))) /\
-  rv_known v = Some "C14-renamed-import" /\ rv_imported v = false.
-Proof. from_eval renamed_eval. Qed.
+  rv_name v = lit "A2" /\ rv_from v = lit "a" /\ rv_dom v = true /\ rv_known v = None /\ rv_imported v = true.
+Proof. split; [vm_compute; reflexivity|]. from_eval renamed_eval. Qed.
+
+(* the boundary of the named half of the domain (one_generated_name): crate a has TWO types with the Rust name A2 - in two
+   modules of a/src/lib.rs -, one generated as A2, one as A2Other.  Typeshare knows types by their bare names: the rename
+   table holds A2 -> A2Other for crate a, so the reference of my-crate is rewritten to A2Other and (since the /repo fix of
+   C14-renamed-import) the import follows it, while the specification's renamed_in names the first, A2.  The reference is
+   outside dom_C14 and in no finding class; nothing is claimed about it. *)
+Definition w_a_two : ws_entry := w_entry (lit "a") (w_file
+  [INest [w_struct [] (lit "A2") [w_fld (lit "x") (w_ty (lit "u8"))]];
+   INest [w_struct [w_rename (lit "A2Other")] (lit "A2") [w_fld (lit "y") (w_ty (lit "u8"))]]]
+  [[lit "typeshare"]; [lit "u8"]; [lit "serde"]]).
+Definition ws_two_names : list ws_entry := [w_a_two; w_b [w_use (lit "a") (lit "A2")] (lit "A2")].
+Lemma two_names_eval :
+  one_generated_name (c14_infos uc_exec [] ws_two_names) (lit "a") (lit "A2") = false /\
+  renamed_in (c14_infos uc_exec [] ws_two_names) (lit "a") (lit "A2") = lit "A2" /\
+  w_run idl idl ws_two_names MY = Some ([(lit "a", lit "A2Other")], [(lit "A2", lit "a", false, None, false)]) /\
+  w_field_types ws_two_names MY = [RSimple (lit "A2Other")].
+Proof. repeat split; vm_compute; reflexivity. Qed.
 
 Theorem glob_fixed : exists arrivals pd v,
   parse_workspace uc_exec [] [] (fun l => l) ws_glob = Ok arrivals /\
